@@ -13,6 +13,29 @@ static void check_cmds(const char *method, int variant, const ref_cmd *c, int n,
 		return;
 	}
 	dec_expect("larc-output", method, SBUF, sl, EBUF, el, 0);
+	/* the same commands with the unused flag bits of the last run (-lz5-) / the padding bits of the last byte (-lzs-) set to one
+	 * instead of zero: a literal announced with no byte left is the end of the data, the commands before it stand */
+	{
+		static uint8_t alt[sizeof SBUF];
+		int changed = 0;
+		memcpy(alt, SBUF, sl);
+		if (variant != 's' && n % 8 != 0) {
+			size_t o = 0, flagpos = 0;
+			int i;
+			for (i = 0; i < n; ++i) { if (i % 8 == 0) flagpos = o++; o += c[i].copy ? 2 : 1; }
+			alt[flagpos] |= (uint8_t) (0xFF << (n % 8));
+			changed = 1;
+		} else if (variant == 's') {
+			size_t bits = 0;
+			int i;
+			for (i = 0; i < n; ++i) bits += c[i].copy ? 16 : 9;
+			if (bits % 8) { alt[sl - 1] |= (uint8_t) (0xFF >> (bits % 8)); changed = 1; }
+		}
+		if (changed && sl) {
+			rl = variant == 's' ? ref_lzs_decode(alt, sl, el, EBUF2) : ref_lz5_decode(alt, sl, el, EBUF2);
+			if (rl == el && !memcmp(EBUF, EBUF2, el)) dec_expect("larc-output-ones-padding", method, alt, sl, EBUF, el, 0);
+		}
+	}
 	if (nontrivial) vf_nontrivial(vf_hash(SBUF, sl, variant));
 }
 
